@@ -166,6 +166,9 @@ type schedule struct {
 	// model: the same schedule on Model.Conc (driver op) and how the real outcome maps onto the model's answer
 	model     string
 	implCanon func(outcome string) string
+	// modelW: the same schedule on Model.ConcW (write path vs Close vs rotation)
+	modelW     string
+	implCanonW func(outcome string) string
 }
 
 // classify the parked call's result for comparison with the model
@@ -277,7 +280,17 @@ func concSchedules(seed uint64) []schedule {
 					return fmt.Sprintf("readers=[] close=done writer-pending=%d double-close=false", n)
 				}
 			}
-			out = append(out, schedule{name: fmt.Sprintf("close-vs-%s/seg%d", rc.point, segSize), props: []string{"C14"}, model: model, implCanon: canon, run: func() (string, []Violation) {
+			var modelW string
+			var canonW func(string) string
+			if rc.point == "StoreLogs:before-lock" || rc.point == "DeleteRange:before-lock" {
+				// the writer has passed its first closed check; Close runs to completion; the rotation goroutine sees the
+				// closed trigger channel and exits; the writer resumes: lock, (no rotation pending), re-check
+				modelW = "concw 0 w0,c,c,c,r,r,r,w0,w0,w0,w0"
+				canonW = func(o string) string {
+					return fmt.Sprintf("writers=[%s] close=done rotator=exited rotations=0 panic=false io-after-close=false", callClass(o))
+				}
+			}
+			out = append(out, schedule{name: fmt.Sprintf("close-vs-%s/seg%d", rc.point, segSize), props: []string{"C14"}, model: model, implCanon: canon, modelW: modelW, implCanonW: canonW, run: func() (string, []Violation) {
 				e, err := newConcEnv(segSize, 6)
 				if err != nil {
 					return "setup-err", nil
@@ -318,7 +331,31 @@ func concSchedules(seed uint64) []schedule {
 		}
 	}
 	// ---- C14: a writer waiting for the rotation when Close arrives ----
-	out = append(out, schedule{name: "close-vs-await-rotation", props: []string{"C14"}, run: func() (string, []Violation) {
+	out = append(out, schedule{name: "close-vs-await-rotation", props: []string{"C14"},
+		// writer 0 seals (queues a rotation); the rotation goroutine does not run yet; writer 1 takes the lock, sees the
+		// pending rotation and waits; Close runs; the rotator and writer 1 resume
+		modelW: "concw 1,0 w0,w0,w0,w0,w0,w1,w1,w1,c,c,c,r,r,r,w1,w1,w1,w1",
+		implCanonW: func(o string) string {
+			st := "?"
+			if i := strings.Index(o, "store2="); i >= 0 {
+				switch {
+				case strings.HasPrefix(o[i+7:], "ok"):
+					st = "ok"
+				case strings.HasPrefix(o[i+7:], "err closed"):
+					st = "closed"
+				case strings.HasPrefix(o[i+7:], "panic"):
+					st = "panic"
+				default:
+					st = o[i+7:]
+				}
+			}
+			cl := "running"
+			if strings.Contains(o, "close=ok") {
+				cl = "done"
+			}
+			return fmt.Sprintf("writers=[ok %s] close=%s rotator=exited rotations=0 panic=false io-after-close=false", st, cl)
+		},
+		run: func() (string, []Violation) {
 		e, err := newConcEnv(150, 0)
 		if err != nil {
 			return "setup-err", nil
@@ -363,7 +400,20 @@ func concSchedules(seed uint64) []schedule {
 		return outcome, nil
 	}})
 	// ---- C14: a rotation queued by the last append, not yet started when Close runs ----
-	out = append(out, schedule{name: "close-vs-queued-rotation", props: []string{"C14"}, run: func() (string, []Violation) {
+	out = append(out, schedule{name: "close-vs-queued-rotation", props: []string{"C14"},
+		modelW: "concw 1 w0,w0,w0,w0,w0,c,c,c,r,r,r,r",
+		implCanonW: func(o string) string {
+			cl := "running"
+			if strings.Contains(o, "close=ok,ok") {
+				cl = "done"
+			}
+			io := "false"
+			if !strings.Contains(o, "io-after-close=0") {
+				io = "true"
+			}
+			return fmt.Sprintf("writers=[ok] close=%s rotator=exited rotations=0 panic=false io-after-close=%s", cl, io)
+		},
+		run: func() (string, []Violation) {
 		e, err := newConcEnv(150, 0)
 		if err != nil {
 			return "setup-err", nil
@@ -1287,6 +1337,11 @@ func suiteConc(seed uint64, tier string) *Report {
 		if s.model != "" && s.implCanon != nil && !strings.Contains(outcome, "not-parked") && !strings.HasPrefix(outcome, "setup-err") {
 			mc.Ops = append(mc.Ops, s.model)
 			mc.Impl = append(mc.Impl, s.implCanon(outcome))
+		}
+		if s.modelW != "" && s.implCanonW != nil && !strings.Contains(outcome, "not-parked") && !strings.HasPrefix(outcome, "setup-err") && outcome != "process-died" {
+			mc.Ops = append(mc.Ops, s.modelW)
+			mc.Impl = append(mc.Impl, s.implCanonW(outcome))
+			rep.Dist["model_w_schedules_compared"]++
 		}
 		rep.Cases++
 		rep.Ops++
